@@ -910,6 +910,14 @@ func c13Run(c *core.Ctx, raw json.RawMessage) {
 			switch got {
 			case after:
 				c.Probe("unknown_outcome_applied")
+				if after != pre && !crashed && len(down) == 0 && tgt == ldr && s.Leader() == ldr {
+					// nothing was wrong with the cluster (no crash, all nodes up, same leader
+					// before and after, request sent to it): an applied request owes its results
+					before.Close()
+					c.Violate("applied-without-results", "request %d (%s tx=%v roe=%v) was applied on every node but the client got no result list: http %d top-level error %q call error %v body %.200s\n  stmts: %s",
+						oi, op.Ep, op.Tx, op.Roe, httpCode, topErr, callErr, httpBody, c13StmtList(op))
+					return
+				}
 				before.Close()
 			case pre:
 				c.Probe("unknown_outcome_not_applied")
